@@ -674,8 +674,9 @@ fn gen_field(r: &mut Rng, f: Fs) -> (Vec<u8>, String) {
         U32 => { let v = ext_u32(r); (v.to_be_bytes().to_vec(), format!("u{}", v)) }
         Name => { let w = gen_name(r); let t = format!("n{}", hex(&w)); (w, t) }
         Cstr => { let w = gen_charstr(r); let t = format!("q{}", hex(&w[1..])); (w, t) }
-        B16 => { let b = gen_blob(r, 48); let t: String = b.iter().map(|x| format!("{:02X}", x)).collect(); (b, format!("r{}", hex(t.as_bytes()))) }
-        B64 => { let b = gen_blob(r, 60); let t = domain::utils::base64::encode_string(&b); (b, format!("r{}", hex(t.as_bytes()))) }
+        // binary fields: the octets; the model computes the Base16 / Base64 text (C18 models)
+        B16 => { let b = gen_blob(r, 48); let t = format!("x{}", hex(&b)); (b, t) }
+        B64 => { let b = gen_blob(r, 60); let t = format!("y{}", hex(&b)); (b, t) }
         Ip4 => { let b = r.bytes(4); let t = format!("{}", std::net::Ipv4Addr::new(b[0], b[1], b[2], b[3])); (b, format!("w{}", hex(t.as_bytes()))) }
         Ip6 => { let b = match r.below(3) { 0 => vec![0u8; 16], _ => r.bytes(16) }; let mut a = [0u8; 16]; a.copy_from_slice(&b);
                  let t = format!("{}", std::net::Ipv6Addr::from(a)); (b, format!("w{}", hex(t.as_bytes()))) }
